@@ -772,10 +772,13 @@ def hastings_oracle(c, o, op, r):
         if len(zs) == 1 and np.all(np.isfinite(QW_f)) and np.all(np.isfinite(mu_f)):
             z = _np(zs[0])
             try:
+                cond = float(np.linalg.cond(QW_f))
                 U = np.linalg.cholesky(QW_f).T
                 path = mu_f + np.linalg.solve(U, z)
-                if not np.allclose(path, g1, rtol=1e-8, atol=1e-8):
-                    return H, "proposal_form", {"proposed_field": g1.tolist(), "mean_plus_draw": path.tolist()}
+                # mean = QW^-1 b: round-off is amplified by the condition number of QW (the GMRF part is singular)
+                tolp = max(1e-8, 1e-13 * cond) * max(1.0, float(np.max(np.abs(g1))))
+                if cond < 1e10 and not np.all(np.abs(path - g1) <= tolp):
+                    return H, "proposal_form", {"proposed_field": g1.tolist(), "mean_plus_draw": path.tolist(), "condition_number": cond}
             except np.linalg.LinAlgError:
                 pass
         return H, None, info
@@ -1055,7 +1058,7 @@ def _body(c, tmp):
             if not same(after, r["before"]):
                 ch = diff_ids(after, r["before"])
                 fail("reject_not_restored", dict(where, changed=ch, before=rnd({i: s_before[i] for i in ch}), after=rnd({i: to_state(after)[i] for i in ch})), cls,
-                     position=["first" if i == o["params"][0] else "later" for i in ch if i in o["params"]][:1] or ["foreign"])
+                     position=(["first" if i == o["params"][0] else "later" for i in ch if i in o["params"]] or ["foreign"])[0])
         if "end" in r and not same(r["end"], after):
             fail("state_changed_after_decision", dict(where, changed=diff_ids(r["end"], after)), cls)
         # ---- (f) tuning
